@@ -55,7 +55,7 @@ SEC63 = """### 6.3 Coverage review and strengthening (mutants under `/verif/muta
 After the first seeds had shown what kind of change slips through (an input dimension missing
 from a lattice; a known-finding signature that is too coarse; an oracle that is one-sided), ten
 read-only reviewers went through every check against its property and the anchored code and listed
-the most plausible small changes the check would NOT see (`/verif/build/review/<id>.md`, 3-6 per
+the most plausible small changes the check would NOT see (`/verif/review/<id>.md`, 3-6 per
 property, each with the missing lattice value or comparison). Builder sub-agents (and the author
 for C01/C05) then closed the cheap ones; every closed gap was demonstrated with the reviewer's
 mutant in a scratch copy (diff and violation line recorded under `mutants/<id>/`). Highlights:
